@@ -2238,6 +2238,11 @@ def front_cases_with_faults(ctx, rng, n):
             lines += body
         text = "\n".join(lines) + ("\n" if rng.random() < 0.9 else "")
         out.append({"id": f"fc{k}", "patch": text, "kind": kind if expect else "none", "expect": expect})
+        if k % 6 == 0:
+            # the same text after blank or whitespace-only lines: whatever is made of it, the command line, the library and the
+            # specification make the same of it
+            lead = rng.choice(["\n", "\n\n", "  \n", "\t\n \n", "\r\n"])
+            out.append({"id": f"fc{k}lead", "patch": lead + text, "kind": "none", "expect": None})
     return out
 
 def diag_of(line):
@@ -2247,7 +2252,11 @@ def diag_of(line):
     return stage, [tuple(x) for x in d[1:]]
 
 def strip_api(line):
-    return re.sub(r" \(api \w+\)\)$", ")", line).replace("(diag ok)", "(diag pass)")
+    return re.sub(r" \(api \w+(?: \(\d+ \d+\))*\)\)$", ")", line).replace("(diag ok)", "(diag pass)")
+
+def api_positions(line):
+    m = re.search(r" \(api \w+((?: \(\d+ \d+\))*)\)\)$", line)
+    return set(re.findall(r"\((\d+) (\d+)\)", m.group(1))) if m else set()
 
 def c19_several_faults(ctx, rng):
     """a fault in the metavariable section of several changes of one patch: every one is reported at its own place"""
@@ -2337,8 +2346,14 @@ def c19(ctx):
                 probs.append(f"patch with an injected {c['kind']} fault was not rejected at its header/metavariable stage (stage {stage})")
             elif not any(d[:3] == want for d in diags):
                 probs.append(f"diagnostic positions {diags} do not include the offending token at {want}")
-            if "(api named)" not in impl:
+            if "(api named" not in impl:
                 probs.append("the library API error does not name the patch file")
+        apos = api_positions(impl)
+        lost = [d[:2] for d in diags if tuple(d[:2]) not in apos]
+        if diags and "(api ok)" not in impl and lost:
+            probs.append(f"the library reports the faults at {sorted(apos)}, the front end itself at {[tuple(d[:2]) for d in diags]}")
+        if diags and "(api ok)" in impl:
+            probs.append("the library accepts a patch the front end rejects")
         if strip_api(impl) != model and not (stage == "body" and mstage == "pass"):
             # positions / structure differ from the model: is it a position the property speaks about?
             if stage in ("section", "meta", "compile") or mstage in ("section", "meta", "compile"):
